@@ -147,6 +147,23 @@ def run_case(ctx, rng, graph, gkind, i):
         if _amax(gmrfmon.dense(om.precision) - Qs) > 1e-9 * nrm:
             ctx.fail("object_backed_model_differs_from_vector_model", cls="GMRFModel")
         om.mahalanobis_distance(samples[0]); om.mahalanobis_distance(samples[:3])
+        # the object-level mean is the sample mean - also after the model has been fed more data
+        im = GMRFModel(samples, graph, mode=mode, n_components=trunc, sparse=bool(i % 2), bias=bias, incremental=True)
+        fed = X
+        for step in range(int(rng.integers(1, 3))):
+            mv = im.mean().as_vector()
+            ctx.tap("object_mean_is_sample_mean", "calls"); ctx.tap("object_mean_is_sample_mean", "checked")
+            if _amax(mv - fed.mean(0)) > 1e-9 * max(1.0, float(np.abs(fed).max())):
+                ctx.fail("model_mean_is_not_the_sample_mean", cls="GMRFModel", mech="object_mean:" + ("after_increment" if step else "init"))
+            d0 = float(im.mahalanobis_distance(im.mean()))
+            if not (abs(d0) <= 1e-6 * max(1.0, nrm)):
+                ctx.fail("distance_at_the_mean_is_not_zero", cls="GMRFModel", mech="object_mean:" + ("after_increment" if step else "init"), got=d0)
+            more = gmrfmon.make_data(rng, int(rng.integers(2, 6)), V, k) + rng.normal(size=V * k)
+            im.increment([ms.PointCloud(row.reshape(V, k)) for row in more])
+            fed = np.vstack([fed, more])
+        mv = im.mean().as_vector()
+        if _amax(mv - fed.mean(0)) > 1e-9 * max(1.0, float(np.abs(fed).max())):
+            ctx.fail("model_mean_is_not_the_sample_mean", cls="GMRFModel", mech="object_mean:after_increment")
     ctx.count_case((gkind, V, int(graph.n_edges), k, mode, bias, np.dtype(dtype).name, "none" if trunc is None else ("below" if trunc < block else "above"), iso),
                    nontrivial=graph.n_edges >= 1 or (V >= 2 and k >= 2),
                    sample={"graph": gkind, "n_vertices": V, "edges": np.asarray(graph.edges).tolist()[:8], "features_per_vertex": k, "mode": mode, "bias": bias,
